@@ -313,7 +313,7 @@ theorem removeNode_sim (e : Env) (T0 : Trie) (hdb : DbOk e T0)
       | some lv =>
         simp only [Option.isSome_some, if_true, Option.map_some, tDropValue]
         rw [replaceOldValue_spec e.ver e.H T0 d _ lv (hvals lv rfl)]
-        obtain ⟨n, fixNews, hfix, hf⟩ := fix_sim e T0 hdb c pre key none cs
+        obtain ⟨n, fixNews, hfix, hf⟩ := fix_sim e T0 hdb none pre key none cs
           ((if lv.isRef then [rowOf e.ver e.H T0 (.val (pre ++ key))] else []) ++ d)
           (fun dv h => by cases h) hkids (Or.inr hsome)
         rw [hfix]
@@ -326,8 +326,8 @@ theorem removeNode_sim (e : Env) (T0 : Trie) (hdb : DbOk e T0)
         refine removeFixed_post hok' hm d hf hne ?_ ?_
         · intro pos hn
           simp only [Needs] at hn ⊢
-          rcases hn with h | ⟨h, _⟩ | h
-          · exact Or.inl h
+          rcases hn with ⟨h, _⟩ | ⟨h, _⟩ | h
+          · cases h
           · cases h
           · exact Or.inr (Or.inr h)
         · intro pos hpos
@@ -337,7 +337,7 @@ theorem removeNode_sim (e : Env) (T0 : Trie) (hdb : DbOk e T0)
             refine ⟨⟨List.prefix_append _ _, ?_⟩, validPos_of_ref (hvals lv rfl) hr⟩
             intro hn
             simp only [Needs] at hn
-            rcases hn with ⟨_, h⟩ | ⟨h, _⟩ | ⟨i, hi⟩
+            rcases hn with ⟨h, _⟩ | ⟨h, _⟩ | ⟨i, hi⟩
             · cases h
             · cases h
             · exact below_child_ne_val (needs_below _ _ _ hi) rfl
@@ -417,7 +417,7 @@ theorem removeNode_sim (e : Env) (T0 : Trie) (hdb : DbOk e T0)
                 simp only [Hd.setKid, hai, if_false]
                 rw [← abs_isNil (hkids a)]; exact isNil_false_of_ne ha
             · left; cases bv <;> simp_all
-          obtain ⟨n, fixNews, hfix, hf⟩ := fix_sim e T0 hdb c pre pk bv (Hd.setKid cs idx Hd.none)
+          obtain ⟨n, fixNews, hfix, hf⟩ := fix_sim e T0 hdb none pre pk bv (Hd.setKid cs idx Hd.none)
             (newsC.map (rowOf e.ver e.H T0) ++ d) hvals hkids' hne2
           rw [hfix]
           have habs : (fun i => abs T0 (Hd.setKid cs idx Hd.none i) (pre ++ pk ++ [i])) =
@@ -441,8 +441,8 @@ theorem removeNode_sim (e : Env) (T0 : Trie) (hdb : DbOk e T0)
           refine removeFixed_post hok' hm d hf hnn ?_ ?_
           · intro pos hn
             simp only [Needs] at hn ⊢
-            rcases hn with h | h | ⟨i, hi⟩
-            · exact Or.inl h
+            rcases hn with ⟨h, _⟩ | h | ⟨i, hi⟩
+            · cases h
             · exact Or.inr (Or.inl h)
             · rcases needs_setKid hi with ⟨_, h⟩ | ⟨_, h⟩
               · exact h.elim
@@ -453,8 +453,8 @@ theorem removeNode_sim (e : Env) (T0 : Trie) (hdb : DbOk e T0)
               (hbel pos hpos).2⟩
             intro hn
             simp only [Needs] at hn
-            rcases hn with ⟨_, hp⟩ | ⟨_, hp⟩ | ⟨i, hi⟩
-            · exact below_child_ne_node hb hp
+            rcases hn with ⟨h, _⟩ | ⟨_, hp⟩ | ⟨i, hi⟩
+            · cases h
             · exact below_child_ne_val hb hp
             · rcases needs_setKid hi with ⟨_, h⟩ | ⟨hne', h⟩
               · exact h.elim
